@@ -58,6 +58,11 @@ def check(run):
     for r, (p, ft, ups) in ROUTES.items():
         if r not in inst.functions:
             raise AnalysisError('anchored install route vanished: %s' % r)
+    # private helpers other than the anchors of the rules are expanded where they are called (shape normalisation)
+    keep = ('_extract_rate', '_parse_block', '_scrape_metadata_hydrogen', '_scrape_metadata_hydrogen_like', '_scrape_metadata_full',
+            '_notation_adf11_adas2cherab', '_thermalcx_adf15_2dto3d_converter', '_group_by_block')
+    for m in mods.values():
+        prog.normalise_module(m, keep=keep, propagate=False)
     _r1(run, prog, inst, mods)
     _r2(run, prog, inst, mods)
     _r3(run, mods['adf15'])
@@ -262,10 +267,6 @@ def _r2(run, prog, inst, mods):
         raise AnalysisError('anchored function vanished: _notation_adf11_adas2cherab')
     K = 'cherab.openadas.install|_notation_adf11_adas2cherab|'
     src = nf.args.args[0].arg
-    got = {}
-    for st in ast.walk(nf):
-        if isinstance(st, ast.Assign) and isinstance(st.targets[0], ast.Subscript) and isinstance(st.targets[0].slice, ast.Constant):
-            got[st.targets[0].slice.value] = (st.targets[0], st.value)
     factors = {'PerCm3ToPerM3': 10 ** 6, 'Cm3ToM3': Fraction(1, 10 ** 6), 'AngstromToNm': Fraction(1, 10)}
 
     class ConvEval(SymEval):
@@ -299,30 +300,142 @@ def _r2(run, prog, inst, mods):
                     if Fraction(10) ** k == v.const_value():
                         return C(k)
             return super().ev(n)
-    ce = ConvEval()
-    run_block(ce, [st for lp in ast.walk(nf) if isinstance(lp, ast.For) for st in lp.body if (isinstance(st, ast.Assign) and isinstance(st.targets[0], ast.Name)) or isinstance(st, ast.AugAssign)])
-    want11 = {'ne': C(10 ** 6), 'te': C(1), 'rates': C(Fraction(1, 10 ** 6))}
-    for k, fac in want11.items():
-        run.subject('C08-R2')
-        g = got.get(k)
-        if g is None or norm(g[0]).replace(' ', '') != "rate_cherab[i][j+charge_correction]['%s']" % k:
-            run.fail('C08-R2', K + 'conversion:' + k, inst.relpath, nf.lineno, "ADF11 '%s' is not stored at rate_cherab[element][charge + offset]['%s']: %s" % (k, k, norm(g[0]) if g else None))
-            continue
-        val = ce.ev(g[1])
-        want = fac * L("pow10(%s[i,j,const:'%s'])" % (src, k))
-        want_alt = fac * L('pow10(%s)' % SymEval().ev(ast.parse("%s[i][j]['%s']" % (src, k), mode='eval').body).key())
-        if val.eq(want) or val.eq(want_alt):
-            run.ok('C08-R2', 'ADF11 ' + k, '%s * 10^x' % fac.key())
-        else:
-            ratio = val / want_alt
-            if ratio.is_const():
-                run.fail('C08-R2', K + 'conversion:' + k, inst.relpath, nf.lineno,
-                         "ADF11 '%s' is converted as %s: off by the factor %s from the documented %s * 10^x" % (k, norm(g[1]), ratio.const_value(), fac.key()))
-            elif all(l.startswith('pow10(') and src in l for l in val.leaves()):
-                run.fail('C08-R2', K + 'conversion:' + k, inst.relpath, nf.lineno,
-                         "ADF11 '%s' is converted as %s, which is not %s * 10^x of the parsed table" % (k, norm(g[1]), fac.key()))
+    ftp = nf.args.args[1].arg
+
+    class DictEval(ConvEval):
+        """nested mapping access spelled as a path: SRC[E][Z]['ne']"""
+
+        def subscript(self, n):
+            base = self.ev(n.value)
+            if isinstance(n.slice, ast.Constant) and isinstance(n.slice.value, str):
+                idx = n.slice.value
             else:
-                run.undecided('C08-R2', 'ADF11 ' + k, 'conversion written in a form the algebra does not recognise: %s' % norm(g[1]))
+                idx = self.ev(n.slice).key()
+            return L('%s[%s]' % (base.key(), idx))
+
+    class _U(Exception):
+        pass
+
+    def run_conv(special):
+        """special: the file type is one of the three whose charge is that of the recombined ion. Returns the list of stores."""
+        out = []
+
+        def truth(t):
+            if isinstance(t, ast.UnaryOp) and isinstance(t.op, ast.Not):
+                return not truth(t.operand)
+            if isinstance(t, ast.Compare) and len(t.ops) == 1 and isinstance(t.ops[0], (ast.In, ast.NotIn)) and norm(t.left) == ftp \
+                    and isinstance(t.comparators[0], (ast.List, ast.Tuple, ast.Set)) and all(isinstance(e, ast.Constant) for e in t.comparators[0].elts):
+                names = sorted(e.value for e in t.comparators[0].elts)
+                if names != ['pls', 'plt', 'scd']:
+                    raise _U('file types %s' % names)
+                return special if isinstance(t.ops[0], ast.In) else not special
+            raise _U('condition %s' % norm(t))
+
+        class EV2(DictEval):
+            def ifexp(self, n):
+                return self.ev(n.body) if truth(n.test) else self.ev(n.orelse)
+
+            def call(self, n):
+                if dotted(n.func) == 'int' and len(n.args) == 1:
+                    return self.ev(n.args[0])
+                return super().call(n)
+        ev = EV2({src: L('SRC'), ftp: L('FT')})
+
+        def key_symbol(d):
+            k = d.key()
+            return L('E') if k == 'SRC' else (L('Z') if k == 'SRC[E]' else None)
+
+        def block(stmts):
+            for st in stmts:
+                if isinstance(st, (ast.Expr, ast.Pass, ast.Return)):
+                    continue
+                if isinstance(st, ast.If):
+                    block(st.body if truth(st.test) else st.orelse)
+                elif isinstance(st, ast.For):
+                    it = st.iter
+                    items = False
+                    if isinstance(it, ast.Call) and isinstance(it.func, ast.Attribute) and it.func.attr in ('keys', 'items') and not it.args:
+                        items = it.func.attr == 'items'
+                        d = ev.ev(it.func.value)
+                    elif isinstance(it, (ast.Name, ast.Subscript)):
+                        d = ev.ev(it)
+                    else:
+                        raise _U('loop over %s' % norm(it))
+                    ks = key_symbol(d)
+                    if ks is None:
+                        raise _U('loop over %s' % norm(it))
+                    if items:
+                        if not (isinstance(st.target, ast.Tuple) and len(st.target.elts) == 2 and all(isinstance(e, ast.Name) for e in st.target.elts)):
+                            raise _U('loop target %s' % norm(st.target))
+                        ev.env[st.target.elts[0].id] = ks
+                        ev.env[st.target.elts[1].id] = L('%s[%s]' % (d.key(), ks.key()))
+                    else:
+                        if not isinstance(st.target, ast.Name):
+                            raise _U('loop target %s' % norm(st.target))
+                        ev.env[st.target.id] = ks
+                    block(st.body)
+                elif isinstance(st, ast.Assign) and len(st.targets) == 1 and isinstance(st.targets[0], ast.Name):
+                    v = st.value
+                    if (isinstance(v, ast.Call) and (dotted(v.func) or '').endswith(('RecursiveDict', 'dict', 'OrderedDict'))) or isinstance(v, ast.Dict):
+                        ev.env[st.targets[0].id] = L('OUT')
+                    else:
+                        ev.env[st.targets[0].id] = ev.ev(v)
+                elif isinstance(st, ast.Assign) and len(st.targets) == 1 and isinstance(st.targets[0], ast.Subscript):
+                    chain, t = [], st.targets[0]
+                    while isinstance(t, ast.Subscript):
+                        chain.append(t.slice)
+                        t = t.value
+                    chain.reverse()
+                    base = ev.ev(t) if isinstance(t, ast.Name) and t.id in ev.env else L(norm(t))
+                    out.append((base, [(c.value if isinstance(c, ast.Constant) and isinstance(c.value, str) else ev.ev(c)) for c in chain], ev.ev(st.value), st))
+                elif isinstance(st, ast.AugAssign):
+                    raise _U('in-place update %s' % norm(st)[:50])
+                else:
+                    raise _U(norm(st)[:50])
+        block(nf.body)
+        return out
+    want11 = {'ne': C(10 ** 6), 'te': C(1), 'rates': C(Fraction(1, 10 ** 6))}
+    for special in (True, False):
+        tag = 'ADF11 (%s)' % ('scd/plt/pls' if special else 'other types')
+        try:
+            sts = run_conv(special)
+        except _U as e:
+            run.subject('C08-R2')
+            if str(e).startswith('file types'):
+                run.fail('C08-R2', K + 'charge-offset', inst.relpath, nf.lineno,
+                         'the ADF11 charge offset is not selected by "file type in scd, plt, pls": %s' % e)
+            else:
+                run.undecided('C08-R2', tag, 'cannot interpret %s' % e)
+            continue
+        cc = C(-1 if special else 0)
+        for k, fac in want11.items():
+            run.subject('C08-R2')
+            g = [x for x in sts if len(x[1]) == 3 and x[1][2] == k and x[0].key() != 'SRC']
+            if not g:
+                run.fail('C08-R2', K + 'conversion:' + k, inst.relpath, nf.lineno, "ADF11 '%s' is not stored in the converted table" % k)
+                continue
+            base, chain, val, st = g[-1]
+            if not (isinstance(chain[0], Rat) and chain[0].eq(L('E'))):
+                run.fail('C08-R2', K + 'element-key:' + k, inst.relpath, st.lineno, "ADF11 '%s' is stored under the element key %s" % (k, getattr(chain[0], 'key', lambda: chain[0])()))
+                continue
+            if not (isinstance(chain[1], Rat) and chain[1].eq(L('Z') + cc)):
+                run.fail('C08-R2', K + 'charge-offset', inst.relpath, st.lineno,
+                         "%s: '%s' of the ADAS charge Z is stored under the charge %s, expected Z %s" % (
+                             tag, k, getattr(chain[1], 'key', lambda: chain[1])(), '- 1' if special else '(unchanged)'))
+                continue
+            want = fac * L('pow10(SRC[E][Z][%s])' % k)
+            if val.eq(want):
+                run.ok('C08-R2', '%s %s' % (tag, k), '%s * 10^x stored at [element][Z%s]' % (fac.key(), ' - 1' if special else ''))
+            else:
+                ratio = val / want
+                if ratio.is_const():
+                    run.fail('C08-R2', K + 'conversion:' + k, inst.relpath, st.lineno,
+                             "ADF11 '%s' is converted as %s: off by the factor %s from the documented %s * 10^x" % (k, norm(st.value), ratio.const_value(), fac.key()))
+                elif all(l.startswith('pow10(') for l in val.leaves()) and any('SRC' in l for l in val.leaves()):
+                    run.fail('C08-R2', K + 'conversion:' + k, inst.relpath, st.lineno,
+                             "ADF11 '%s' is converted as %s, which is not %s * 10^x of the parsed table entry of the same element and charge" % (k, norm(st.value), fac.key()))
+                else:
+                    run.undecided('C08-R2', '%s %s' % (tag, k), 'conversion written in a form the algebra does not recognise: %s' % norm(st.value))
     # the converter must not modify the parser output in place (the parser shares one axis array between charge states)
     run.subject('C08-R2')
     tainted = {src}
@@ -343,21 +456,6 @@ def _r2(run, prog, inst, mods):
                  "charge states, so the conversion is applied repeatedly to later charge states" % norm(inplace[0]))
     else:
         run.ok('C08-R2', 'ADF11 converter purity', 'the parsed tables are not modified in place')
-    run.subject('C08-R2')
-    iff = [s for s in nf.body if isinstance(s, ast.If)]
-    okc = False
-    if iff:
-        t = iff[0]
-        if isinstance(t.test, ast.Compare) and isinstance(t.test.ops[0], ast.In) and norm(t.test.left) == nf.args.args[1].arg \
-                and isinstance(t.test.comparators[0], (ast.List, ast.Tuple, ast.Set)) \
-                and sorted(e.value for e in t.test.comparators[0].elts) == ['pls', 'plt', 'scd']:
-            v1 = [norm(s.value) for s in t.body if isinstance(s, ast.Assign)]
-            v0 = [norm(s.value) for s in t.orelse if isinstance(s, ast.Assign)]
-            okc = v1 in (['int(-1)'], ['-1']) and v0 in (['int(0)'], ['0'])
-    if okc:
-        run.ok('C08-R2', 'ADF11 charge convention', "offset -1 exactly for scd / plt / pls")
-    else:
-        run.fail('C08-R2', K + 'charge-offset', inst.relpath, nf.lineno, 'the ADF11 charge offset is not "-1 for scd, plt, pls and 0 otherwise"')
     for route, (pname, ftype, ups) in sorted(ROUTES.items()):
         if ftype is None:
             continue
@@ -569,57 +667,256 @@ def _enclosing_if(fn, node):
     return best
 
 
+def _adf15_axes(run, m15, er):
+    """sequential reads from the block: K values -> list; then the index map of each returned array"""
+    from ..indexmap import ArrEval, I
+    K15 = 'cherab.openadas.parse.adf15|_extract_rate|'
+
+    def grp_leaf(n):
+        # match.groups()[k]  /  match.group(k + 1)
+        if isinstance(n, ast.Subscript) and isinstance(n.slice, ast.Constant) and isinstance(n.value, ast.Call) and isinstance(n.value.func, ast.Attribute) \
+                and n.value.func.attr == 'groups':
+            return L('G%d' % n.slice.value)
+        if isinstance(n, ast.Call) and isinstance(n.func, ast.Attribute) and n.func.attr == 'group' and len(n.args) == 1 and isinstance(n.args[0], ast.Constant):
+            return L('G%d' % (n.args[0].value - 1))
+        return None
+    ae = ArrEval(count_leaf=grp_leaf)
+    pos = {}            # stream name -> values consumed so far
+    ret = {}
+
+    def read_loop(w):
+        """while cnt != K: line = S.pop(0); ...; for v in ...: cnt += 1; lst.append(float(v))  ->  (S, K, lst)"""
+        t = w.test
+        if not (isinstance(t, ast.Compare) and len(t.ops) == 1 and isinstance(t.ops[0], (ast.NotEq, ast.Lt)) and isinstance(t.left, ast.Name)):
+            return None
+        cnt = t.left.id
+        pops = [c for c in ast.walk(w) if isinstance(c, ast.Call) and isinstance(c.func, ast.Attribute) and c.func.attr == 'pop' and isinstance(c.func.value, ast.Name)
+                and len(c.args) == 1 and norm(c.args[0]) == '0']
+        apps = [c for c in ast.walk(w) if isinstance(c, ast.Call) and isinstance(c.func, ast.Attribute) and c.func.attr == 'append' and isinstance(c.func.value, ast.Name)]
+        incs = [x for x in ast.walk(w) if isinstance(x, ast.AugAssign) and isinstance(x.target, ast.Name) and x.target.id == cnt and norm(x.value) == '1']
+        if len(pops) == 1 and len(apps) == 1 and len(incs) == 1:
+            return pops[0].func.value.id, ae.count(t.comparators[0]), apps[0].func.value.id
+        return None
+
+    def block(stmts):
+        for st in stmts:
+            if isinstance(st, ast.While):
+                r = read_loop(st)
+                if r is None:
+                    raise ValueError('loop %s' % norm(st.test))
+                sname, k, lst = r
+                start = pos.get(sname, C(0))
+                a = ae.new_stream(sname, k)
+                a.stream = sname
+                a.off = I(0) + start
+                ae.env[lst] = a
+                pos[sname] = start + k
+            elif isinstance(st, (ast.For, ast.If, ast.With, ast.Try)):
+                block(st.body)
+                if ret:
+                    return
+            elif isinstance(st, ast.Assign) and len(st.targets) == 1 and isinstance(st.targets[0], ast.Name):
+                a = ae.value(st.value)
+                n = st.targets[0].id
+                if a is not None:
+                    ae.env[n] = a
+                else:
+                    ae.env.pop(n, None)
+                    c = ae.count(st.value)
+                    if not any(l.startswith('?') for l in c.leaves()):
+                        ae.counts[n] = c
+            elif isinstance(st, ast.Return) and isinstance(st.value, ast.Dict):
+                for k, v in zip(st.value.keys, st.value.values):
+                    if isinstance(k, ast.Constant):
+                        ret[k.value] = ae.value(v)
+                return
+    try:
+        block(er.body)
+    except ValueError as e:
+        run.undecided('C08-R5', 'ADF15 axes', 'reading %s not recognised' % e)
+        return
+    ne, te, ra = ret.get('ne'), ret.get('te'), ret.get('rate')
+    if ne is None or te is None or ra is None:
+        run.undecided('C08-R5', 'ADF15 axes', 'returned arrays not recognised: %s' % {k: (v.key() if v is not None else None) for k, v in ret.items()})
+        return
+    G0, G1 = L('G0'), L('G1')
+    probs = []
+    if not (ne.off.eq(I(0)) and ne.dims[0] is not None and ne.dims[0].eq(G0)):
+        probs.append("'ne' is %s; documented: the first <field 1> values of the block" % ne.key())
+    if not (te.stream == ne.stream and te.off.eq(G0 + I(0)) and te.dims[0] is not None and te.dims[0].eq(G1)):
+        probs.append("'te' is %s; documented: the next <field 2> values" % te.key())
+    if not (ra.stream == ne.stream and len(ra.dims) == 2 and ra.dims[0].eq(G0) and ra.dims[1].eq(G1) and ra.off.eq(G0 + G1 + I(0) * G1 + I(1))):
+        probs.append("'rate' is %s; documented: rate[density, temperature] = value number (density index * n_te + temperature index) after the two axes" % ra.key())
+    if probs:
+        run.fail('C08-R5', K15 + 'axis-order', m15.relpath, er.lineno, '_extract_rate: ' + '; '.join(probs))
+    else:
+        run.ok('C08-R5', 'ADF15 axes', 'densities, then temperatures, then n_ne * n_te rates as rate[density, temperature]')
+
+
+def _adf2x_axes(run, mu, pr):
+    """sv[energy, density]: ndt columns of neb values each"""
+    run.subject('C08-R5')
+    K2 = 'cherab.openadas.parse.utility|parse_adas2x_rate|'
+    zs = [(t, v, st) for t, v, st in stores(pr) if isinstance(t, ast.Name) and isinstance(v, ast.Call) and dotted(v.func) in ('np.zeros', 'numpy.zeros')
+          and v.args and isinstance(v.args[0], ast.Tuple) and len(v.args[0].elts) == 2]
+    if len(zs) != 1:
+        run.undecided('C08-R5', 'ADF2x axes', 'two-dimensional table allocation not recognised')
+        return
+    tab = zs[0][0].id
+    d0, d1 = [norm(e) for e in zs[0][1].args[0].elts]
+    cols = [(lp, st) for lp in ast.walk(pr) if isinstance(lp, ast.For) and isinstance(lp.target, ast.Name) for st in lp.body
+            if isinstance(st, ast.Assign) and isinstance(st.targets[0], ast.Subscript) and norm(st.targets[0].value) == tab]
+    if len(cols) != 1:
+        run.undecided('C08-R5', 'ADF2x axes', 'filling loop not recognised')
+        return
+    lp, st = cols[0]
+    sl = st.targets[0].slice
+    v = st.value
+    if not (isinstance(sl, ast.Tuple) and len(sl.elts) == 2 and isinstance(v, ast.Call) and dotted(v.func) == 'readvalues' and len(v.args) >= 2
+            and isinstance(lp.iter, ast.Call) and dotted(lp.iter.func) == 'range' and len(lp.iter.args) == 1):
+        run.undecided('C08-R5', 'ADF2x axes', 'filling statement not recognised: %s' % norm(st))
+        return
+    n_iter, n_read = norm(lp.iter.args[0]), norm(v.args[1])
+    full = [isinstance(e, ast.Slice) and e.lower is None and e.upper is None for e in sl.elts]
+    idx = [norm(e) == lp.target.id for e in sl.elts]
+    # which header count is the number of energies: the one used to read the axis stored under 'EB'
+    eb = [v2 for t2, v2, s2 in stores(pr) if isinstance(t2, ast.Subscript) and norm(t2.slice) == "'EB'" and isinstance(v2, ast.Call) and dotted(v2.func) == 'readvalues']
+    dt = [v2 for t2, v2, s2 in stores(pr) if isinstance(t2, ast.Subscript) and norm(t2.slice) == "'DT'" and isinstance(v2, ast.Call) and dotted(v2.func) == 'readvalues']
+    if not eb or not dt:
+        run.undecided('C08-R5', 'ADF2x axes', 'axis reads not recognised')
+        return
+    ne_, nd_ = norm(eb[0].args[1]), norm(dt[0].args[1])
+    if full == [True, False] and idx == [False, True] and (d0, d1) == (ne_, nd_) and (n_iter, n_read) == (nd_, ne_):
+        run.ok('C08-R5', 'ADF2x axes', 'sv[energy, density], one column of %s energies per density' % ne_)
+    elif full == [False, True] and idx == [True, False] and (d0, d1) == (nd_, ne_) and (n_iter, n_read) == (nd_, ne_):
+        run.fail('C08-R5', K2 + 'axis-order', mu.relpath, st.lineno, 'parse_adas2x_rate builds sv[density, energy]; documented: sv[energy, density]')
+    elif (n_iter, n_read) != (nd_, ne_) or sorted((d0, d1)) != sorted((ne_, nd_)):
+        run.fail('C08-R5', K2 + 'axis-order', mu.relpath, st.lineno,
+                 'parse_adas2x_rate reads %s blocks of %s values into a (%s, %s) table; documented: %s blocks (one per density) of %s energies' % (n_iter, n_read, d0, d1, nd_, ne_))
+    else:
+        run.fail('C08-R5', K2 + 'axis-order', mu.relpath, st.lineno, 'parse_adas2x_rate fills %s of a (%s, %s) table: not sv[energy, density]' % (norm(st.targets[0]), d0, d1))
+
+
+def _readvalues(run, mu, rv0):
+    """fixed-width framing: value k of a line occupies characters [1 + 10 k, 10 (k + 1)); a new line every values_per_line values"""
+    from ..inline import propagate
+    run.subject('C08-R5')
+    KR = 'cherab.openadas.parse.utility|readvalues|'
+    rv = propagate(rv0)
+    ps = [a.arg for a in rv.args.args]
+    nvals, per = ps[1], ps[2]
+    loops = [w for w in ast.walk(rv) if isinstance(w, ast.While)]
+    if len(loops) != 1 or not isinstance(loops[0].test, ast.Compare):
+        run.undecided('C08-R5', 'readvalues framing', 'reading loop not recognised')
+        return
+    w = loops[0]
+    cnt = norm(w.test.left)
+    ev = SymEval()
+    col = L('Mod(%s,%s)' % (cnt, per))
+    sl = [x for x in ast.walk(w) if isinstance(x, ast.Subscript) and isinstance(x.slice, ast.Slice) and isinstance(x.value, ast.Name)]
+    newline = [i for i in ast.walk(w) if isinstance(i, ast.If) and any(isinstance(c, ast.Call) and isinstance(c.func, ast.Attribute) and c.func.attr == 'readline' for c in ast.walk(i))]
+    if len(sl) != 1 or len(newline) != 1:
+        run.undecided('C08-R5', 'readvalues framing', 'field slice / line advance not recognised')
+        return
+    # a local holding the column number (count % values_per_line), recomputed in every iteration before its uses
+    for t0, v0, st0 in stores(w):
+        if isinstance(t0, ast.Name) and isinstance(v0, ast.BinOp) and isinstance(v0.op, ast.Mod) and norm(v0.left) == cnt and norm(v0.right) == per \
+                and st0 in w.body and all(getattr(u, 'lineno', 0) >= st0.lineno for u in ast.walk(w) if isinstance(u, ast.Name) and u.id == t0.id):
+            ev.env[t0.id] = col
+    lo, hi = ev.ev(sl[0].slice.lower), ev.ev(sl[0].slice.upper)
+    t = newline[0].test
+    adv_ok = isinstance(t, ast.Compare) and len(t.ops) == 1 and isinstance(t.ops[0], ast.Eq) and norm(t.comparators[0]) == '0' and ev.ev(t.left).eq(col)
+    probs = []
+    if not lo.eq(C(1) + C(10) * col) or not hi.eq(C(10) * (col + C(1))):
+        if all(l == col.key() for l in (lo.leaves() | hi.leaves())):
+            probs.append('value k of a line is cut as characters [%s, %s); documented: [1 + 10 k, 10 (k + 1))' % (lo.key(), hi.key()))
+        else:
+            run.undecided('C08-R5', 'readvalues framing', 'field bounds %s, %s not recognised' % (lo.key(), hi.key()))
+            return
+    if not adv_ok:
+        probs.append('a new line is read when %s, documented: when the number of values read is a multiple of %s' % (norm(t), per))
+    if not (type(w.test.ops[0]).__name__ in ('Lt', 'NotEq') and norm(w.test.comparators[0]) == nvals):
+        probs.append('the loop runs while %s' % norm(w.test))
+    if probs:
+        run.fail('C08-R5', KR + 'framing', mu.relpath, rv0.lineno, 'readvalues: ' + '; '.join(probs))
+    else:
+        run.ok('C08-R5', 'readvalues framing', 'a new line every values_per_line values; 10-character fields [1 + 10k, 10(k+1))', sample=False)
+
+
+
 # ------------------------------------------------------------------------------------------ R5
 def _r5(run, mods):
     run.describe('C08-R5', 'axis order of the parsed tables')
+    from ..indexmap import ArrEval, Arr, I
+    from ..inline import propagate
     m11 = mods['adf11']
-    fn = m11.functions['parse_adf11']
-    txt = norm(fn)
+    fn0 = m11.functions['parse_adf11']
+    fn = fn0
+
+    def hdr_leaf(n):
+        """int(<header fields>[k]) / <header fields>[k] -> Hk (k-th whitespace separated field of the ADF11 header line)"""
+        if isinstance(n, ast.Subscript) and isinstance(n.slice, ast.Constant) and isinstance(n.slice.value, int) and isinstance(n.value, ast.Name):
+            return L('H%d' % n.slice.value)
+        return None
+    ae = ArrEval(count_leaf=hdr_leaf)
+    recs = {}
+    for st in sorted([x for x in ast.walk(fn) if isinstance(x, (ast.Assign, ast.AnnAssign))], key=lambda x: (x.lineno, x.col_offset)):
+        t = st.targets[0] if isinstance(st, ast.Assign) else st.target
+        v = st.value
+        if v is None:
+            continue
+        if isinstance(t, ast.Name):
+            if isinstance(v, ast.Call) and dotted(v.func) in ('np.fromstring', 'np.fromiter', 'np.loadtxt', 'np.array') and not ae.value(v):
+                ae.env[t.id] = ae.new_stream(t.id)
+            elif isinstance(v, ast.Call) and isinstance(v.func, ast.Attribute) and isinstance(v.func.value, ast.Call) \
+                    and dotted(v.func.value.func) in ('np.fromstring',):
+                base = ae.new_stream(t.id)
+                ae.env['__tmp'] = base
+                v2 = ast.Call(func=ast.Attribute(value=ast.Name(id='__tmp', ctx=ast.Load()), attr=v.func.attr, ctx=ast.Load()), args=v.args, keywords=v.keywords)
+                ae.env[t.id] = ae.value(v2)
+            else:
+                a = ae.value(v)
+                if a is not None:
+                    ae.env[t.id] = a
+                else:
+                    ae.env.pop(t.id, None)
+                    c = ae.count(v)
+                    if not any(l.startswith('?') for l in c.leaves()):
+                        ae.counts[t.id] = c
+        elif isinstance(t, ast.Subscript) and isinstance(t.slice, ast.Constant) and t.slice.value in ('ne', 'te', 'rates'):
+            recs[t.slice.value] = (ae.value(v), st)
+    A, B = L('H1'), L('H2')
     run.subject('C08-R5')
-    ok = ".reshape((n_temperatures, n_densities))" in txt and "['rates'] = np.swapaxes(rates_table, 0, 1)" in txt \
-        and 'densities = tmp[:n_densities]' in txt and 'temperatures = tmp[n_densities:]' in txt \
-        and "['ne'] = densities" in txt and "['te'] = temperatures" in txt
-    if ok:
-        run.ok('C08-R5', 'ADF11 axes', 'reshape((n_te, n_ne)) then swapaxes(0, 1): rates[density, temperature]; densities listed first')
+    ne, te, ra = recs.get('ne', (None, None)), recs.get('te', (None, None)), recs.get('rates', (None, None))
+    K11 = 'cherab.openadas.parse.adf11|parse_adf11|'
+    if ne[0] is None or te[0] is None or ra[0] is None:
+        run.undecided('C08-R5', 'ADF11 axes', 'index maps of the stored arrays not recognised (ne=%s te=%s rates=%s)' % tuple(
+            (x[0].key() if x[0] is not None else None) for x in (ne, te, ra)))
     else:
-        run.fail('C08-R5', 'cherab.openadas.parse.adf11|parse_adf11|axis-order', m11.relpath, fn.lineno,
-                 'parse_adf11 does not produce rates[density, temperature] (reshape((n_te, n_ne)) + swapaxes) with densities read before temperatures')
-    run.subject('C08-R5')
-    hd = {norm(t): norm(v) for t, v, st in stores(fn) if isinstance(st, ast.Assign)}
-    if hd.get('n_densities') == 'int(tmp[1])' and hd.get('n_temperatures') == 'int(tmp[2])':
-        run.ok('C08-R5', 'ADF11 header counts', 'n_densities = field 1, n_temperatures = field 2', sample=False)
-    else:
-        run.fail('C08-R5', 'cherab.openadas.parse.adf11|parse_adf11|header-counts', m11.relpath, fn.lineno,
-                 'ADF11 header counts: n_densities = %s, n_temperatures = %s' % (hd.get('n_densities'), hd.get('n_temperatures')))
+        probs = []
+        if not (ne[0].off.eq(I(0)) and ne[0].dims[0] is not None and ne[0].dims[0].eq(A)):
+            probs.append("'ne' holds %s; documented: the first IDMAXD (header field 1) values of the axis block" % ne[0].key())
+        if not (te[0].stream == ne[0].stream and te[0].off.eq(A + I(0))):
+            probs.append("'te' holds %s; documented: the values after the first IDMAXD of the same block" % te[0].key())
+        if ra[0].stream == ne[0].stream:
+            probs.append("'rates' is cut from the axis block")
+        elif not (len(ra[0].dims) == 2 and ra[0].dims[0].eq(A) and ra[0].dims[1].eq(B) and ra[0].off.eq(I(1) * A + I(0))):
+            probs.append("'rates' is %s; documented: rates[density, temperature] = value number (temperature index * IDMAXD + density index) "
+                         "of the block (dims (H1, H2), offset i1*H1 + i0)" % ra[0].key())
+        if probs:
+            run.fail('C08-R5', K11 + 'axis-order', m11.relpath, (ra[1] or fn).lineno, 'parse_adf11: ' + '; '.join(probs))
+        else:
+            run.ok('C08-R5', 'ADF11 axes', 'rates[density, temperature] from a temperature-major block; densities listed first; counts from header fields 1 and 2')
+    # ADF15
     m15 = mods['adf15']
     er = m15.functions['_extract_rate']
-    txt = norm(er)
     run.subject('C08-R5')
-    if 'rates = rates.reshape((num_n, num_t))' in txt and 'num_n = int(match.groups()[0])' in txt and 'num_t = int(match.groups()[1])' in txt \
-            and txt.index('while nn != num_n') < txt.index('while nt != num_t') < txt.index('while nr != num_r') and 'num_r = num_n * num_t' in txt:
-        run.ok('C08-R5', 'ADF15 axes', 'densities, then temperatures, then num_n * num_t rates reshaped (num_n, num_t)')
-    else:
-        run.fail('C08-R5', 'cherab.openadas.parse.adf15|_extract_rate|axis-order', m15.relpath, er.lineno,
-                 '_extract_rate does not read densities, temperatures, rates in that order and reshape the rates (density, temperature)')
+    _adf15_axes(run, m15, er)
     mu = mods['utility']
     pr = mu.functions['parse_adas2x_rate']
-    txt = norm(pr)
-    run.subject('C08-R5')
-    if 'sv = np.zeros((neb, ndt))' in txt and 'for index in range(ndt):\n        sv[:, index] = readvalues(file, neb, 8)' in txt \
-            and "raw['EB'] = readvalues(file, neb, 8)" in txt and "raw['DT'] = readvalues(file, ndt, 8)" in txt:
-        run.ok('C08-R5', 'ADF2x axes', 'sv[energy, density], one column of neb energies per density')
-    else:
-        run.fail('C08-R5', 'cherab.openadas.parse.utility|parse_adas2x_rate|axis-order', mu.relpath, pr.lineno,
-                 'parse_adas2x_rate does not fill sv[:, density index] with neb energies per density into an (neb, ndt) table')
+    _adf2x_axes(run, mu, pr)
     rv = mu.functions['readvalues']
-    txt = norm(rv)
-    run.subject('C08-R5')
-    if "line[1 + nb_read_line * 10:(nb_read_line + 1) * 10].replace('D', 'E')" in txt and 'nb_read_line = nb_read % values_per_line' in txt \
-            and 'if nb_read_line == 0:\n            line = file.readline()' in txt and 'while nb_read < nb_values' in txt:
-        run.ok('C08-R5', 'readvalues framing', 'a new line every values_per_line values; 10-character fields; D exponents', sample=False)
-    else:
-        run.fail('C08-R5', 'cherab.openadas.parse.utility|readvalues|framing', mu.relpath, rv.lineno,
-                 'readvalues does not read values_per_line 10-character fields per line (new line when the count is a multiple of values_per_line)')
+    _readvalues(run, mu, rv)
     # ADF12: the five scans (energy, temperature, density, Zeff, B) appear in the same order in the reference values, the
     # point counts and the scan blocks
     m12 = mods['adf12']
